@@ -14,6 +14,7 @@ mod suite_axes;
 mod suite_build;
 mod suite_entity;
 mod suite_ffixed;
+mod suite_fanyorder;
 mod suite_fmap;
 mod suite_fclone;
 mod suite_forest;
@@ -42,7 +43,9 @@ mod tree;
 use common::Sink;
 
 fn main() {
-    std::panic::set_hook(Box::new(|_| {}));
+    if std::env::var("XOTHARNESS_SHOW_PANICS").is_err() {
+        std::panic::set_hook(Box::new(|_| {}));
+    }
     let args: Vec<String> = std::env::args().collect();
     if args.len() < 5 {
         eprintln!("usage: xotharness <suite> <seed> <count> <tier>");
